@@ -314,7 +314,7 @@ PROPS = {
             "the module account is not a user: conversions from or to it are refused (it is a blocked address)",
         ],
         "level_text": "Machine-checked proofs (Lean 4) over a model of one token pair with an honest token contract: every history of MsgConvertCoin / MsgConvertERC20 in both ownership modes, ERC20 transfers with the PostTxProcessing hook, holder burns, owner mints, toggles and the bank MsgSend wrapper keeps the backing (in)equation; a coin-origin pair is backed exactly while no holder burns; an accepted conversion moves the same amount on both sides and a refused one changes nothing; a kernel-checked counterexample shows what a forged Transfer log does to an ERC20-origin pair. Tied to the real keepers by an exact differential run through the application's message router and the EVM keeper (hooks included), which also exercises the repository's malicious tokens and a log-forging token.",
-        "level_note": "Trusted: Lean kernel; correspondence harness; honest token and bank semantics modelled; adversarial tokens observed, not modelled; IBC callbacks not run.",
+        "level_note": "Trusted: Lean kernel; correspondence harness; honest token and bank semantics modelled; adversarial tokens observed, not modelled; of the IBC callbacks only OnRecvPacket is run (as ibc-go core runs it), acknowledgement and timeout callbacks are not.",
         "technique": "Lean 4 invariant proof by induction over op sequences + differential correspondence on the real application + adversarial-token monitors",
         "explanation": "Backing invariant proved for all histories of the honest model; coin-origin and ERC20-origin pairs registered per case on the real application and driven with conversions, hook transfers, burns, mints, toggles and wrapped bank sends, six quantities compared with the model after every op; malicious and log-forging tokens registered and monitored.",
     },
